@@ -457,7 +457,7 @@ theorem noAcq_step {c : ICfg} {s s' : IT} (h : ∀ x ∈ s.ws, x.acquired = fals
   | merge sh q hres hq => exact h
   | mergeStop q hres hq => exact h
   | env ws' hw =>
-    rcases hw with ⟨w, hw⟩ | ⟨w, hw⟩
+    rcases hw with ⟨w, hw⟩ | ⟨w, hw, _⟩
     · exact crashW_noAcq hw h
     · exact rejoinW_noAcq hw h
 
